@@ -1,5 +1,5 @@
 """C13 Configurables patched at the reported offsets are observed -- partial (DESIGN 2/C13)."""
-from units import c13
+from units import c13, c13imm
 
 LEVEL = "proof"
 TRUSTED = ["Kani 0.68 / CBMC 6.11", "syn-based extractor"]
@@ -8,7 +8,7 @@ EXPLANATION = ""
 
 
 def build(tier):
-    us = c13.build(tier)
+    us = c13.build(tier) + c13imm.build(tier)
     for u in us:
         u.obligations = [o for o in u.obligations if o.prop == "C13"]
     return us
